@@ -94,6 +94,17 @@ def shacl_problems(text):
 
 # ------------------------------------------------------------------------- C02
 
+def _refs_a_removed_shape(sym, schema, c, k):
+    """The values behind key k = (inverse, pred, value class) of class c include instances of a shape that is not in the output (removed as empty)."""
+    labels = {sh.label for sh in schema.shapes}
+    for key in sym["ref"]:
+        cc, d, p, kind = key[0], key[1], key[2], key[3]
+        if cc == c and bool(d) == bool(k[0]) and p == k[1] and isinstance(kind, str) and kind.startswith("%<"):
+            if kind[2:-1] not in labels:
+                return True
+    return False
+
+
 def judge_c02(ctx, ex):
     r0 = ctx["runs"][0]
     schema, sym, t = r0["schema"], r0["sym"], r0["t"]
@@ -114,7 +125,7 @@ def judge_c02(ctx, ex):
                     yield ("shape %s was removed although its feature %r reaches the threshold" % (c, k), ge_threshold_expr(cnt, size, t), None)
                 else:
                     yield ("shape %s was removed although its feature %r reaches the threshold" % (c, k), ge_threshold_expr(cnt, size, t),
-                           "STAGE-ref-to-removed-shape-drops-constraint")
+                           "STAGE-ref-to-removed-shape-drops-constraint" if _refs_a_removed_shape(sym, schema, c, k) else None)
             continue
         if isinstance(size, int) and size == 0:
             # a requested class without instances: an empty shape reporting 0 instances iff empty shapes are kept
@@ -139,7 +150,7 @@ def judge_c02(ctx, ex):
         for k, cnt in cands.items():
             oracle = ge_threshold_expr(cnt, size, t)
             cls = "STAGE-nonliteral-filter-before-merge" if (tagged and k[2] == ("nonliteral",)) else None
-            if sm_removal and k[2] == ("nonliteral",):
+            if sm_removal and k[2] == ("nonliteral",) and _refs_a_removed_shape(sym, schema, c, k):
                 cls = "STAGE-ref-to-removed-shape-drops-constraint"
             if k in present:
                 yield ("constraint %r present in %s although its frequency is below the threshold" % (k, sh.label), _neg(oracle), cls)
@@ -297,7 +308,7 @@ def concrete_c02(cref, schema, threshold, tags, remove_empty=True):
             continue
         if len(shapes) == 0 and sm_removal:
             for k, cnt in candidate_keys(sym, c).items():
-                if k[2] != ("nonliteral",) and float(cnt) / float(size) >= threshold:
+                if (k[2] != ("nonliteral",) or not _refs_a_removed_shape(sym, schema, c, k)) and float(cnt) / float(size) >= threshold:
                     problems.append("shape %s was removed although its feature %r reaches the threshold" % (c, k))
             continue
         if len(shapes) != 1:
@@ -314,7 +325,7 @@ def concrete_c02(cref, schema, threshold, tags, remove_empty=True):
         for k, cnt in cands.items():
             if "iri+bnode" in tags and k[2] == ("nonliteral",):
                 continue
-            if sm_removal and k[2] == ("nonliteral",) and "known-ref-removed" in tags:
+            if sm_removal and k[2] == ("nonliteral",) and "known-ref-removed" in tags and _refs_a_removed_shape(sym, schema, c, k):
                 continue
             want = float(cnt) / float(size) >= threshold
             if want != (k in present):
